@@ -295,7 +295,7 @@ func listStr(l []string) string {
 
 func (n *node) iterIds() ([]*types.Group, bool) {
 	gc := core.GetGroupChain()
-	limit := len(core.VerifGroupChainDump()) + 1
+	limit := len(n.everIds) + 2 // every stored group was handed to the chain since the last wipe
 	var out []*types.Group
 	it := gc.Iterator()
 	for g := it.Current(); g != nil; g = it.MovePre() {
@@ -812,6 +812,7 @@ func (g *gen) malformed() {
 		{"boot 9001,9001,9001,0", "rmlast", "rmto 0"},
 		// remove down to and below genesis; uint64 edges of the height key
 		{"boot 9001,-,9001,0", "rmlast", "rmto 0", "rmto 18446744073709551615", "add a1 9001 9001 1", "rmto 18446744073709551615", "rmto 0", "rmto 0"},
+		{"boot 9001,-,9001,0", "byheight 7449927343006903924", "add a1 9001 9001 1", "byheight 7449927343006903924", "syncat 7449927343006903924 2"},
 		{"boot 9001,-,9001,0", "byheight 18446744073709551615", "byheight 18446744073709551616", "syncat 18446744073709551615 3", "add a1 9001 9001 1", "syncat 18446744073709551615 3", "syncat 0 0"},
 		// crash budgets larger than the op, crash on a rejected op
 		{"boot 9001,-,9001,0", "crash 9 add a1 9001 9001 1", "crash 0 add a1 9001 9001 1", "crash 2 add a2 9001 9001 1", "crash 4 rmlast"},
@@ -955,6 +956,15 @@ func main() {
 		f := strings.Fields(op)
 		if !inDomain || len(f) == 0 {
 			return res
+		}
+		if f[0] == "boot" && n.alive && !seenKey["height-key-gcurrent"] {
+			// the height whose 8-byte key is the ASCII string "gcurrent" (0x6763757272656e74)
+			if h := core.GetGroupChain().GetGroupByHeight(0x6763757272656e74); h != nil {
+				seenKey["height-key-gcurrent"] = true
+				viols = append(viols, viol{Key: "height-key-gcurrent",
+					Desc: fmt.Sprintf("Count()=%d but GetGroupByHeight(7449927343006903924)=%s (that height's key is \"gcurrent\")", core.GetGroupChain().Count(), gstr(h)),
+					History: []string{op, "byheight 7449927343006903924"}})
+			}
 		}
 		switch f[0] {
 		case "boot":
